@@ -545,7 +545,7 @@ func (bc *BlockChain) GetBody(hash common.Hash) *types.Body {
 	}
 
 	for i := range body.Uncles {
-		body.Uncles[i].Version = bc.GetBlockVersion(body.Uncles[0].Number) // only one version
+		body.Uncles[i].Version = bc.GetBlockVersion(body.Uncles[i].Number) // by the uncle's own height
 	}
 	// Cache the found body for next time and return
 	bc.bodyCache.Add(hash, body)
@@ -611,6 +611,7 @@ func (bc *BlockChain) GetBlock(hash common.Hash, number uint64) *types.Block {
 		return nil
 	}
 	hashv := block.SetVersion(bc.Config().GetBlockVersion(block.Number()))
+	block.SetUncleVersions(bc.Config().GetBlockVersion)
 	// Cache the found block for next time and return
 	bc.blockCache.Add(hashv, block)
 	return block
